@@ -30,6 +30,9 @@
 // Operations are enabled only while they keep the library inside the property's quantifier: cell
 // names stay unique among the members and everything reachable from them, replacement objects are
 // fresh, no cycle can arise (pool cells have no by-pointer references).
+// init7 is the one exception: a Cell outside the library, referenced by pointer, carries the name of a
+// raw cell (see name_taken); there replace_cell also redirects references to the same-named object of
+// the other kind, as gdstk's four overloads do.
 // Two kinds of disagreement are reported as violations WITHOUT stopping the search below them (the
 // observed value is adopted by the model, so one root cause cannot hide later failures and cannot
 // cascade into secondary reports): raw-cell dependency lists that still designate the replaced-out
@@ -58,7 +61,7 @@ using namespace gdstk;
 using namespace vf;
 
 static Run* R;
-static std::string F_RAW12, F_RAW3, F_RAW32, F_RAW6;
+static std::string F_RAW12, F_RAW3, F_RAW32, F_RAW6, F_RAW7;
 
 // ------------------------------------------------------------------------------------ the model
 enum { K_PTR = 0, K_NAME = 1 };
@@ -447,9 +450,17 @@ static std::set<int> universe(const World& w) {  // members and everything reach
     }
     return u;
 }
-static bool name_taken(const World& w, const std::string& n, int except) {
-    for (int id : universe(w))
-        if (id != except && w.objs[id].name == n) return true;
+// Is the name n in use?  Strict rule (all libraries but init7): by any other member or reachable object.
+// init7 admits the one duplicate gdstk's own wording allows ("unique name within the library"): a Cell
+// that is NOT in the library, referenced by pointer, may carry the name of a raw cell (and vice versa);
+// there a clash is an object of the same kind, or two members.  kind: 0 cell, 1 raw, -1 unknown (strict).
+static bool name_taken(const World& w, const std::string& n, int except, int kind = -1, bool member = true) {
+    for (int id : universe(w)) {
+        if (id == except || w.objs[id].name != n) continue;
+        if (w.init != 7 || kind < 0) return true;
+        bool id_member = w.mcells.count(id) || w.mraws.count(id);
+        if ((int)w.objs[id].raw == kind || (member && id_member)) return true;
+    }
     return false;
 }
 // is t designated by pointer from a reachable object that is not a library member?  (Such a
@@ -684,6 +695,13 @@ struct GraphSys {
                 add_ref_ptr(w, b, c); add_ref_name(w, b, "A"); add_ref_name(w, b, "ABCD");
                 member(a); member(b); member(c);
             } break;
+            case 7: {  // A -> Cell 'R1' and Cell 'R3' (both outside the library) and A -> raw R1 (member); pool raw R3
+                int a = new_cell(w, "A", 0, serial++), x1 = new_cell(w, "R1", 1, serial++), x3 = new_cell(w, "R3", 0, serial++);
+                auto ids = load_raws(w, F_RAW7);
+                int r1 = ids["R1"];
+                add_ref_ptr(w, a, x1); add_ref_ptr(w, a, x3); add_ref_ptr(w, a, r1);
+                member(a); member(r1);
+            } break;
             default: {  // A -> X -> Y -> W, only A in the library
                 int a = new_cell(w, "A", 0, serial++), x = new_cell(w, "X", 1, serial++), y = new_cell(w, "Y", 0, serial++), v = new_cell(w, "W", 1, serial++);
                 add_ref_ptr(w, a, x); add_ref_ptr(w, x, y); add_ref_ptr(w, y, v);
@@ -701,8 +719,9 @@ struct GraphSys {
             w.pool[0] = new_cell(w, "B", 0, serial++);
             w.pool[1] = new_cell(w, "Q", 1, serial++);
             add_ref_name(w, w.pool[1], "Z");
-            auto ids = load_raws(w, init == 4 ? F_RAW32 : F_RAW3);
+            auto ids = load_raws(w, init == 4 || init == 7 ? F_RAW32 : F_RAW3);
             w.pool[2] = ids["R3"];
+            if (init == 7) w.pool[4] = ids["R1"];  // same-name raw replacement for the member raw R1
             if (init == 4) { w.pool[3] = ids["R2"]; w.pool[4] = ids["R1"]; }  // same-name raw replacements for R2 and R1
         }
         for (int k = 0; k < 5; k++) w.pool_fresh[k] = w.pool[k] >= 0;
@@ -794,7 +813,8 @@ struct GraphSys {
     static const char* init_name(int k) {
         static const char* n[] = {"chain A->B->C", "diamond A->B,A->C,B->D,C->D", "A->B by pointer, A->'Z' by name (Z absent)", "A->'B' by name (B present), C->B by pointer",
                                   "A->raw R1, R1->R2, R2->R4 (read_rawcells; R4 not in the library)", "A->X->Y->W, only A in the library",
-                                  "AB->ABC->ABCD by pointer; AB->'ABCD','ABX' and ABC->'A','ABCD' by name (ABX, A absent)"};
+                                  "AB->ABC->ABCD by pointer; AB->'ABCD','ABX' and ABC->'A','ABCD' by name (ABX, A absent)",
+                                  "A->Cell 'R1', A->Cell 'R3' (both outside the library), A->raw R1 (member): cells named like the old / the new raw cell"};
         return n[k];
     }
 
@@ -837,7 +857,9 @@ struct GraphSys {
         const std::string oldname = w.objs[old].name, newname = w.objs[nw].name;
         for (int m : w.mcells)
             for (auto& r : w.objs[m].refs) {
-                if (r.kind == K_PTR && r.target == old) r.target = nw;
+                // by pointer to old, or (names are the identity of cells in a layout file) by pointer to an object of
+                // the OTHER kind that carries old's name: possible only in init7, see name_taken
+                if (r.kind == K_PTR && (r.target == old || (w.objs[r.target].raw != w.objs[old].raw && w.objs[r.target].name == oldname))) r.target = nw;
                 else if (r.kind == K_NAME && r.name == oldname) r.name = newname;
             }
         for (int m : w.mraws) {
@@ -1075,7 +1097,7 @@ struct GraphSys {
                 if (op.a >= (int)mc.size()) return false;
                 int c = mc[op.a];
                 std::string n = NEWNAME_()[op.b];
-                if (w.objs[c].name == n || name_taken(w, n, c)) return false;
+                if (w.objs[c].name == n || name_taken(w, n, c, 0, true)) return false;
                 // symmetry reduction: N1 and N2 are interchangeable fresh names, N2 is offered only while N1 is in use
                 if (init != 6 && op.b == 1 && !name_taken(w, NEWNAME_()[0], -1)) return false;
                 if (dry) return true;
@@ -1089,7 +1111,7 @@ struct GraphSys {
                     if (op.a >= (int)mc.size()) return false;
                     c = mc[op.a];
                     old = w.objs[c].name;
-                    if (old == n || name_taken(w, n, c)) return false;
+                    if (old == n || name_taken(w, n, c, 0, true)) return false;
                 } else if (op.a == 2) {
                     if (mr.empty()) return false;
                     old = w.objs[mr[0]].name;  // a raw cell's name: get_cell finds nothing, documented effect: none
@@ -1113,7 +1135,7 @@ struct GraphSys {
                 }
                 if (old < 0 || w.pool[op.b] < 0 || !w.pool_fresh[op.b]) return false;
                 int nw = w.pool[op.b];
-                if (name_taken(w, w.objs[nw].name, old) || referenced_by_nonmember(w, old)) return false;
+                if (name_taken(w, w.objs[nw].name, old, (int)w.objs[nw].raw, w.mcells.count(old) || w.mraws.count(old)) || referenced_by_nonmember(w, old)) return false;
                 if (dry) return true;
                 const MObj &O = w.objs[old], &N = w.objs[nw];
                 bool was_member = w.mcells.count(old) || w.mraws.count(old);
@@ -1310,7 +1332,7 @@ struct GraphSys {
             case APPEND: {
                 if (w.pool[op.a] < 0 || !w.pool_fresh[op.a]) return false;
                 int id = w.pool[op.a];
-                if (name_taken(w, w.objs[id].name, -1)) return false;
+                if (name_taken(w, w.objs[id].name, -1, (int)w.objs[id].raw, true)) return false;
                 if (dry) return true;
                 if (w.objs[id].raw) { lib->rawcell_array.append((RawCell*)w.objs[id].ptr); w.mraws.insert(id); }
                 else { lib->cell_array.append((Cell*)w.objs[id].ptr); w.mcells.insert(id); }
@@ -1382,6 +1404,7 @@ static void write_raw_files() {
     write(F_RAW3, {simple("R3", 9)});
     write(F_RAW32, {simple("R3", 9), simple("R2", 6), simple("R1", 3)});
     write(F_RAW6, {simple("ABCDE", 9), simple("AB", 6)});
+    write(F_RAW7, {simple("R1", 2)});
 }
 
 
@@ -1630,6 +1653,7 @@ int main(int argc, char** argv) {
     F_RAW3 = run.scratch + "/raw3.gds";
     F_RAW32 = run.scratch + "/raw32.gds";
     F_RAW6 = run.scratch + "/raw6.gds";
+    F_RAW7 = run.scratch + "/raw7.gds";
     write_raw_files();
     if (run.replaying()) {
         std::string sub = run.rarg("sub");
@@ -1645,7 +1669,7 @@ int main(int argc, char** argv) {
         return run.finish();
     }
     if (getenv("C16_BENCH")) {
-        for (int k = 0; k < 7; k++) {
+        for (int k = 0; k < 8; k++) {
             GraphSys s(k);
             double t0 = now();
             for (int i = 0; i < 2000; i++) { World* w = s.make_world(); s.destroy_world(w); }
@@ -1674,10 +1698,12 @@ int main(int argc, char** argv) {
     // on the searches already finished in this run) whether the requested depth fits into the time
     // that remains after reserving one level less for every search still to come; if it does not,
     // the depth of this search is lowered and the bound that is reported says so.
-    const int NI = 7;
-    const int order[NI] = {6, 5, 2, 4, 0, 3, 1};
-    const double WEIGHT[NI] = {20.8, 18.0, 3.1, 8.6, 6.0, 1.0, 19.7};  // indexed by init (init6: extrapolated from depth 4)
-    auto req = [&](int init) { return init == 6 ? depth6 : depth; };
+    const int NI = 8;
+    const int order[NI] = {7, 6, 5, 2, 4, 0, 3, 1};
+    const double WEIGHT[NI] = {20.8, 18.0, 3.1, 8.6, 6.0, 1.0, 19.7, 3.3};  // indexed by init (init6: extrapolated from depth 4)
+    int depth7 = T ? 4 : 3;  // init7 (a Cell outside the library named like a raw cell): small world
+    if (getenv("C16_DEPTH")) depth7 = atoi(getenv("C16_DEPTH"));
+    auto req = [&](int init) { return init == 6 ? depth6 : init == 7 ? depth7 : depth; };
     const double GROWTH = 7.0;
     double rate = 0, done_weight = 0, done_time = 0;  // seconds per weight unit
     for (int n = 0; n < NI; n++) {
